@@ -79,3 +79,22 @@ impl<'a, G: Fn(&'a str) -> Result<String, String>> MappedPieces<'a, G> {
             r is Err ==> exists|i: int| 0 <= i < self.pieces@.len() && call_ensures(self.g, (#[trigger] self.pieces@[i],), Err::<String, String>(r->Err_0)),
     { unimplemented!() }
 }
+/// `s.chars().next()`: the first character, if any
+#[verifier::external_body]
+pub fn first_char(s: &str) -> (r: Option<char>) ensures r == (if s@.len() > 0 { Some(s@[0]) } else { None::<char> }) { unimplemented!() }
+impl<'a> Pieces<'a> {
+    /// Iterator::skip(n): everything but the first n items
+    #[verifier::external_body]
+    pub fn skip(self, n: usize) -> (r: Pieces<'a>)
+        ensures r.pieces@ == (if n as int <= self.pieces@.len() { self.pieces@.skip(n as int) } else { Seq::empty() })
+    { unimplemented!() }
+    /// `collect::<Vec<_>>()`: the items in order
+    #[verifier::external_body]
+    pub fn collect_vec(self) -> (r: Vec<&'a str>) ensures r@ == self.pieces@ { unimplemented!() }
+}
+/// W9b: `panic!(..)` in route_path_to_segments IS the refusal of a malformed route template; the stand-in never
+/// returns and its precondition demands the justification
+#[verifier::external_body]
+pub fn reject_template(Ghost(justified): Ghost<bool>) -> !
+    requires justified
+{ panic!() }
